@@ -312,7 +312,15 @@ class World:
             fn(chain=chain, rule=rule, owner=real_owner(a[0]))
             return 'ok'
         if ev == 'RuleGC':
-            self.rulemgr.garbage_collect()
+            # as the cleanup service calls it: with a watchdog lease to keep alive while
+            # the scan runs (a heartbeat period so short that every entry renews it)
+            self.gc_calls = getattr(self, 'gc_calls', 0) + 1
+            if self.gc_calls % 2:
+                beats = []
+                lease = type('Lease', (), {'heartbeat': lambda _self: beats.append(1)})()
+                self.rulemgr.garbage_collect(lease, 1e-9)
+            else:
+                self.rulemgr.garbage_collect()
             return 'ok'
         if ev in ('SpecCreate', 'SpecUnlink'):
             proto, name, real_port, pid, port = _SPEC_ARGS[a[1]]
